@@ -9,18 +9,22 @@ LEVEL = "model_checking"
 # AWS_ASSERT / AWS_PRECONDITION lines of allocator_sba.c and array_list are live as a second oracle.
 _P2K = ["-DAWS_SBA_PAGE_SIZE=((uintptr_t)2048)"]
 HARNESSES = [
-    dict(name="sbaseq", src=["sbaseq.c"], variant="asan", deadline={"quick": 150, "thorough": 1200}),
-    dict(name="sbaseq2k", src=["sbaseq.c"], variant="asan", cflags=_P2K, deadline={"quick": 150, "thorough": 1200}),
+    dict(name="sbaseq", src=["sbaseq.c"], variant="asan", deadline={"quick": 150, "thorough": 1200}, optional_if_uncompilable="allocator_sba.c"),
+    dict(name="sbaseq2k", src=["sbaseq.c"], variant="asan", cflags=_P2K, deadline={"quick": 150, "thorough": 1200}, optional_if_uncompilable="allocator_sba.c"),
     dict(name="sbaseq2k-dbg", src=["sbaseq.c"], variant="asan-dbg", cflags=_P2K + ["-DSBASEQ_DEBUG_ONLY=1"],
-         tiers=["thorough"], deadline={"thorough": 600}),
+         tiers=["thorough"], deadline={"thorough": 600}, optional_if_uncompilable="allocator_sba.c"),
     # page-capacity boundaries of every size class: 0 .. three pages' worth + 2 live blocks x six release orders (BEE)
     dict(name="sbafill", src=["sbafill.c"], variant="asan", deadline={"quick": 150, "thorough": 600}),
     # pages, parent blocks and the control block in ONE first-fit heap that does not scrub memory (what old pages leave
     # behind is an environment answer): every history of small / large-unwritten / large-written acquires and releases
-    dict(name="sbaheap", src=["sbaheap.c"], variant="asan", cflags=_P2K, deadline={"quick": 150, "thorough": 900}),
+    dict(name="sbaheap", src=["sbaheap.c"], variant="asan", cflags=_P2K, deadline={"quick": 150, "thorough": 900}, optional_if_uncompilable="allocator_sba.c"),
     # the same at the shipped optimisation level with free()/posix_memalign() visible to the compiler under their own names
     # (redirected at link time): what the object code leaves behind in pages it gives back, not what the source says
     dict(name="sbaheap-o2", src=["sbaheap.c"], variant="asan", cflags=_P2K + ["-O2", "-DSBAHEAP_LINKWRAP=1"],
+         ldflags=["-Wl,--wrap=free,--wrap=posix_memalign"], deadline={"quick": 150, "thorough": 900}, optional_if_uncompilable="allocator_sba.c"),
+    # the same environment with nothing but the public API, linked against the library's own object code (shipped page size
+    # and optimisation level): keeps working when allocator_sba.c's private structures are rearranged
+    dict(name="sbaheap-bb", src=["sbaheap.c"], variant="asan", cflags=["-DSBAHEAP_BLACKBOX=1"],
          ldflags=["-Wl,--wrap=free,--wrap=posix_memalign"], deadline={"quick": 150, "thorough": 900}),
     # concurrent half: 2-3 threads on a multi-threaded allocator, every interleaving at the per-bin mutexes
     dict(name="sbamt", src=["sbamt.c"], variant="sched", wrap=True, deadline={"quick": 150, "thorough": 1500}),
